@@ -90,9 +90,62 @@ def init_shape(ctx, rule='A5'):
 
     def expanded(t):
         return norm(expand_locals(view, t.ast))
-    dup = [t for t in tests if any(isinstance(x, ast.Name) and x.id in appended for x in ast.walk(t.ast)) or
-           ('len(set(' in expanded(t) and '_choice_mappings' in expanded(t))]
     unm = [t for t in tests if 'set(self.choice_nodes) - ' in expanded(t)]
+    # transitive dependencies of the locals of the (inlined) function: assignment, augmented assignment, mutation by a
+    # method call (append / add / setdefault / update / item store), inside loops also on the loop's iterable
+    dep = {}
+
+    def srcs(e):
+        out = {x.id for x in ast.walk(e) if isinstance(x, ast.Name)}
+        if '_choice_mappings' in norm(e):
+            out.add('#mappings')
+        if 'self.choice_nodes' in norm(e):
+            out.add('#all-choices')
+        return out
+
+    def visit(stmts, ctx_src):
+        for st in stmts:
+            if isinstance(st, (ast.For, ast.While)):
+                it = srcs(st.iter) if isinstance(st, ast.For) else srcs(st.test)
+                if isinstance(st, ast.For):
+                    for x in ast.walk(st.target):
+                        if isinstance(x, ast.Name):
+                            dep.setdefault(x.id, set()).update(it | ctx_src)
+                visit(st.body + st.orelse, ctx_src | it)
+                continue
+            if isinstance(st, ast.If):
+                visit(st.body + st.orelse, ctx_src | srcs(st.test))
+                continue
+            tg = []
+            if isinstance(st, (ast.Assign, ast.AnnAssign, ast.AugAssign)) and getattr(st, 'value', None) is not None:
+                for t_ in (st.targets if isinstance(st, ast.Assign) else [st.target]):
+                    base = t_
+                    while isinstance(base, (ast.Subscript, ast.Attribute)):
+                        base = base.value
+                    tg += [x.id for x in ast.walk(base) if isinstance(x, ast.Name)] if not isinstance(t_, ast.Tuple) \
+                        else [x.id for x in ast.walk(t_) if isinstance(x, ast.Name)]
+                s_ = srcs(st.value)
+            elif isinstance(st, ast.Expr) and isinstance(st.value, ast.Call) and \
+                    isinstance(st.value.func, ast.Attribute) and isinstance(st.value.func.value, ast.Name) and \
+                    st.value.func.attr in ('append', 'add', 'setdefault', 'update', 'extend', 'insert'):
+                tg = [st.value.func.value.id]
+                s_ = set().union(*[srcs(a_) for a_ in st.value.args]) if st.value.args else set()
+            else:
+                continue
+            for n_ in tg:
+                dep.setdefault(n_, set()).update(s_ | ctx_src)
+    for _ in range(4):
+        visit(view.node.body, set())
+        for k_ in list(dep):
+            for d_ in list(dep[k_]):
+                dep[k_] |= dep.get(d_, set())
+
+    def depends(t, marker):
+        names = {x.id for x in ast.walk(t.ast) if isinstance(x, ast.Name)}
+        return marker in srcs(t.ast) or any(marker in dep.get(n_, ()) for n_ in names)
+    # the duplicate test is the raising test that is computed from the registered mappings only (the unmapped test
+    # also needs the choice nodes of the graph)
+    dup = [t for t in tests if t not in unm and depends(t, '#mappings') and not depends(t, '#all-choices')]
     for nm, ts in (('duplicate', dup), ('unmapped', unm)):
         ok = bool(ts) and not cfg.can_reach(cfg.entry, sup[0], blocked_nodes=ts)
         ctx.ob(rule, fkey(fn, rule, f'{nm}-rejected-before-init'), ok, fn.where,
